@@ -107,6 +107,8 @@ impl<'a> ArenaCow<'a> {
         match self {
             ArenaCow::Borrowed(s) => {
                 if frame.contains_ptr(s.as_ptr()) || pool.contains(s.as_ptr()) {
+                    #[cfg(naijascript_verif)]
+                    crate::runtime::verif_counters::promotion();
                     ArenaCow::Owned(pool.alloc_str(s))
                 } else {
                     ArenaCow::Borrowed(s)
@@ -119,6 +121,8 @@ impl<'a> ArenaCow<'a> {
                 // Pool-allocated strings report the backing arena as their allocator,
                 // so the ptr_eq check above already catches double-promotes for
                 // pool-backed strings.
+                #[cfg(naijascript_verif)]
+                crate::runtime::verif_counters::promotion();
                 ArenaCow::Owned(pool.alloc_str(s.as_str()))
             }
         }
